@@ -39,7 +39,24 @@ func (e *envT) setup() error {
 	e.small = []*bundleT{
 		e.bundle("b0", 0, -1), e.bundle("b1", 3, -1), e.bundle("b2", 9, 1), e.bundle("b3", 20, -1), e.bundle("b4", 1, 6),
 	}
-	e.urls = []string{"http://crl.example.com/a.crl", "http://crl.example.com/b.crl", "http://other.example.org/ca/int.crl?x=1"}
+	e.alt = []*bundleT{e.bundle("a1", 1, -1), e.bundle("a200", 200, -1)}
+	// two different bundles whose cache files have the same length (ECDSA signatures vary in length: retry)
+	e0 := e.bundle("e0", 2, -1)
+	for k := 0; k < 200 && len(e.eq) == 0; k++ {
+		e.all = append([]*bundleT(nil), e.all...) // keep candidates out of the identification tables unless kept
+		n := len(e.all)
+		c := e.bundle("e1", 2, -1)
+		if len(c.Ref) == len(e0.Ref) {
+			e.eq = []*bundleT{e0, c}
+		} else {
+			e.all = e.all[:n]
+		}
+	}
+	if len(e.eq) == 0 {
+		return fmt.Errorf("c14: could not mint two bundles with cache files of equal length")
+	}
+	e.urls = []string{"http://crl.example.com/a.crl", "http://crl.example.com/b.crl", "http://other.example.org/ca/int.crl?x=1",
+		"HTTP://CRL.EXAMPLE.COM/A.CRL", "", " http://crl.example.com/a.crl"}
 	for i, u := range e.urls {
 		e.urlName[u] = fmt.Sprintf("u%d", i)
 		h := sha256.Sum256([]byte(u))
@@ -491,6 +508,55 @@ func (g *gen) hookSchedules() {
 				read(u0)
 				g.hookCase("hook-history", wr, sc)
 			}
+		}
+	}
+	// the same history with bundles whose cache files have EQUAL length (a "size unchanged" shortcut
+	// must not keep the old entry)
+	for rep := 0; rep < 4; rep++ {
+		a, b := e.eq[rep%2], e.eq[1-rep%2]
+		var sc []sev
+		for j := 0; j < 4; j++ {
+			sc = append(sc, sev{Kind: "W", Idx: 0})
+		}
+		sc = append(sc, sev{Kind: "R", Idx: 0, URL: u0})
+		for j := 0; j < 4; j++ {
+			sc = append(sc, sev{Kind: "W", Idx: 1})
+		}
+		sc = append(sc, sev{Kind: "R", Idx: 1, URL: u0})
+		if rep >= 2 {
+			for j := 0; j < 4; j++ {
+				sc = append(sc, sev{Kind: "W", Idx: 2})
+			}
+			sc = append(sc, sev{Kind: "R", Idx: 2, URL: u0})
+		}
+		g.hookCase("hook-equal-length", []wspec{{u0, a}, {u0, b}, {u0, a}}, sc)
+	}
+	// URL variants: an upper-case twin, a twin with a leading blank and the empty URL are different
+	// keys: what is stored for one is never read for another (odd URL written first / last / only)
+	for _, odd := range e.urls[3:] {
+		for order := 0; order < 3; order++ {
+			r := rng.Fork(uint64(g.id))
+			b0, b1 := pickB(r)
+			wr := []wspec{{u0, b0}, {odd, b1}}
+			if order == 1 {
+				wr = []wspec{{odd, b1}, {u0, b0}}
+			}
+			var sc []sev
+			rd := 0
+			read := func(u string) { sc = append(sc, sev{Kind: "R", Idx: rd, URL: u}); rd++ }
+			for j := 0; j < 4; j++ {
+				sc = append(sc, sev{Kind: "W", Idx: 0})
+			}
+			read(u0)
+			read(odd)
+			if order < 2 {
+				for j := 0; j < 4; j++ {
+					sc = append(sc, sev{Kind: "W", Idx: 1})
+				}
+				read(odd)
+				read(u0)
+			}
+			g.hookCase("hook-url-variants", wr, sc)
 		}
 	}
 	// truncated schedules: writers abandoned at every hook point (a crash of a thread of the process)
